@@ -249,6 +249,12 @@ func checkC03(r *Run) {
 	r.alias = map[string]string{"r1": "r7"}
 	c11Delegation(r, m)
 	r.alias = nil
+	if r.borrowed == nil {
+		// ... by the payload size that follows from the message size the server announced (C12.r5)
+		r.borrow(checkC12, map[string]string{"r5": "r7"})
+		// r5 (continued): an error that is wrapped on its way to the reply keeps its chain (C15.r5)
+		r.borrow(checkC15, map[string]string{"r5": "r5"})
+	}
 	// r8: operations keep reaching the File a handle was derived from: the server fences a path
 	// only after the backend really removed or replaced it (the rule of C08.r1).
 	// ... renames are told to the backend with the entry's current name (read while renames
@@ -725,6 +731,36 @@ func (c *c03) clientMethod(fi *FuncInfo, name string, serverTab map[string][]*sr
 		}
 		// results: backend result k → reply field → client result k
 		c.results(fi, body, name, key, s, ent)
+	}
+	// what is sent is what the caller passed: a parameter that reaches a request field is not
+	// changed on the way (a client-side clamp of Readdir's count below what one reply can carry
+	// ends listings early; the server clamps against the negotiated msize itself)
+	for _, f := range fi.Decl.Type.Params.List {
+		for _, nm := range f.Names {
+			pobj := info.Defs[nm]
+			if pobj == nil || usedParams[nm.Name] == 0 {
+				continue
+			}
+			var at token.Pos
+			ast.Inspect(fi.Decl.Body, func(n ast.Node) bool {
+				switch v := n.(type) {
+				case *ast.AssignStmt:
+					for _, lhs := range v.Lhs {
+						if objOf(info, lhs) == pobj {
+							at = v.Pos()
+						}
+					}
+				case *ast.IncDecStmt:
+					if objOf(info, v.X) == pobj {
+						at = v.Pos()
+					}
+				}
+				return true
+			})
+			if at != token.NoPos {
+				r.fail("r1", fmt.Sprintf("clientFile.%s: parameter %s is sent as passed", name, nm.Name), at, "the parameter %s is modified before it is put into the request: the backend does not receive what the caller passed", nm.Name)
+			}
+		}
 	}
 	// every parameter used
 	for _, p := range params {
